@@ -101,8 +101,12 @@ class Trait(object):
         if num:
             raise exception.TraitInUse(name=name)
 
+        # Delete the record whose associations were counted above, not
+        # whatever record carries the name now: the trait may have been
+        # deleted and created again (under a new id, possibly already
+        # associated with a provider) since it was looked up.
         res = context.session.query(models.Trait).filter_by(
-            name=name).delete()
+            id=_id).delete()
         if not res:
             raise exception.TraitNotFound(name=name)
 
